@@ -342,7 +342,8 @@ def drive(prop_id, tier, seed):
             print("HARNESS-ERROR nondeterministic %s: violation %s did not reproduce in a "
                   "fresh interpreter (%s); replay kept at %s"
                   % (prop_id, violation["rule"], line, path))
-            exit_code = max(exit_code, 2)
+            if exit_code == 0:
+                exit_code = 2
     # targeted probes for known findings: each listed finding is re-demonstrated
     for finding in findings:
         if finding.get("status") != "known":
